@@ -19,10 +19,6 @@ def install(eng):
     eng.contract("iface:Fs.changed_at", self_type=vc.Fs, params={"self": vc.Fs, "path": vc.Path}, returns=T.REAL,
                  returns_expr="fs_mtime(self, path)", ensures=["fs_exists(self, path)"],
                  raises={"FileNotFoundError": "not fs_exists(self, path)"}, trusted=True, uses=["fs"])
-    # ---- spec hashes interface
-    eng.contract("iface:SpecHashes.has_changed", self_type=vc.Hashes, params={"self": vc.Hashes, "target": vc.Target},
-                 returns=T.Opt(vc.Hash), ensures=["(result is not None) == Changed(self, target)"], trusted=True)
-
     # ---- path normalisation (C03, C19): string level kept abstract, os.path algebra trusted
     eng.contract("gwf.core:_norm_path", params={"working_dir": vc.Path, "path": vc.Path}, returns=vc.Path,
                  ensures=["result == Canon(working_dir, path)"], uses=["ospath"],
